@@ -1,8 +1,9 @@
 (* Extraction of the C17 model: ExtrOcamlBasic only, no Extract Constant. *)
 Require Import ExtrOcamlBasic.
-From SharkV Require Import C17Model C17Build C17Field C17Gen C17Proj C17ProjBuild.
+From SharkV Require Import C17Model C17Build C17Field C17Gen C17Proj C17ProjBuild C17Vote.
 Extraction "c17_model.ml" query_trace query wf_treeb tindices kd_build median_pos median_okb ksort
   qc_fops qc_make qc_num qc_den
   lc_query_trace lc_query lc_funct lc_unitb khc_query_trace khc_query khc_funct khc_unitb khc_nodeb
   pbounds pwf_treeb pnodes_forallb pindices lin_k poly2_k kd2 dot edist2
-  lc_build khc_build lc_coded_choose khc_coded_choose amedian_okb aksort lc_key khc_key lc_prep khc_prep khc_mk.
+  lc_build khc_build lc_coded_choose khc_coded_choose amedian_okb aksort lc_key khc_key lc_prep khc_prep khc_mk
+  nn_scores nn_classify nn_regress.
